@@ -84,10 +84,10 @@ class _TabulationCutoff(object):
   def _check_positive(self, nr, dr, cutoff):
     if not nr is None and nr <= 0:
       raise ConfigParserException("'{nr}' in [Tabulation] section of potential definition cannot be 0 (zero) or negative.".format(**self._template_dict))
-    if not dr is None and dr <= 0:
-      raise ConfigParserException("'{dr}' in [Tabulation] section of potential definition cannot be 0 (zero) or negative.".format(**self._template_dict))
-    if not cutoff is None and cutoff <= 0:
-      raise ConfigParserException("'{cutoff}' in [Tabulation] section of potential definition cannot be 0 (zero) or negative.".format(**self._template_dict))
+    if not dr is None and not (0 < dr < float("inf")):
+      raise ConfigParserException("'{dr}' in [Tabulation] section of potential definition cannot be 0 (zero), negative or not a finite number.".format(**self._template_dict))
+    if not cutoff is None and not (0 < cutoff < float("inf")):
+      raise ConfigParserException("'{cutoff}' in [Tabulation] section of potential definition cannot be 0 (zero), negative or not a finite number.".format(**self._template_dict))
 
 class _TabulationSection(object):
   """Represents the [Tabulation] section of a config file"""
